@@ -70,6 +70,8 @@ def make_replay(spec, contract, standalone=True):
 # ------------------------------------------------------------------------------------------------
 # recording
 
+PER_UNIT_CAP = 2  # failures of one class recorded individually per work unit
+PER_CLASS_CAP = 40  # ... and per run; every failure is still counted in the notes
 NOISE_PREFIX = ("rank", "order:", "ctor:", "depth:", "threshold:", "rhs_", "expr:", "lhs:", "dim:", "batch:", "sub:", "sampled:", "sample_inputs:", "var:", "log_density:", "f:", "split:", "after:", "raised:")
 
 
@@ -117,6 +119,8 @@ class Recorder:
         self.skipped = 0
 
     def finish(self):
+        for cls, n in self.classes.items():
+            self.res.notes.append("FAILCLASS\t%d\t%s" % (n, " | ".join(cls)))
         if self.skipped:
             self.res.notes.append("generated outside the precondition (skipped): %d" % self.skipped)
         return self.res
@@ -138,8 +142,10 @@ class Recorder:
             if r["status"] == "fail":
                 cls = failure_class(r)
                 self.classes[cls] += 1
+                if self.classes[cls] > PER_UNIT_CAP:
+                    continue  # counted in self.classes (reported in the notes), not recorded individually
                 tspec = truncate(spec, r)
-                replay = make_replay(tspec, r["contract"], standalone=self.classes[cls] <= 2)
+                replay = make_replay(tspec, r["contract"], standalone=self.classes[cls] <= 1)
                 self.res.fail(r["contract"], short_case(spec, label), r["detail"], replay, r["tags"])
 
 
@@ -447,8 +453,8 @@ def plan_c14(tier, seed):
         for part in range(16):
             units.append(("c14_delta", (sd, part, 16)))
     sd = int(rs.randint(1 << 30))
-    for part in range(32):
-        units.append(("c14_tensor", (sd, [1, 2, 3, 4], reps, part, 32)))
+    tparts = 32 if tier == "quick" else 128
+    units = [("c14_tensor", (sd, [1, 2, 3, 4], reps, part, tparts)) for part in range(tparts)] + units  # heavy units first
     bounds = OrderedDict(
         tensor_inputs="1-3 inputs, every size tuple over {1,2,3,4}, entries -inf with probability 0 / 0.3 / 0.6 (rows that are entirely -inf included)",
         tensor_sampled_subsets="every non-empty subset", sample_inputs="0, 1 (size 2), 2 (sizes 3,2)", tensor_repetitions=reps,
@@ -499,10 +505,21 @@ def run(prop_id, tier="quick", seed=0, jobs=16):
     if derr:
         res.notes.append("DRIVER ERRORS: %d (first: %s)" % (len(derr), derr[0][:300]))
     classes = Counter()
+    for n in res.notes:
+        if n.startswith("FAILCLASS\t"):
+            _, cnt, cls = n.split("\t", 2)
+            classes[cls] += int(cnt)
+    res.notes = [n for n in res.notes if not n.startswith("FAILCLASS\t")]
+    kept, per = [], Counter()
     for f in res.failures:
-        classes[" | ".join([f["contract"]] + sorted(t for t in f["tags"] if not t.startswith(NOISE_PREFIX)))] += 1
+        cls = " | ".join([f["contract"]] + sorted(t for t in f["tags"] if not t.startswith(NOISE_PREFIX)))
+        per[cls] += 1
+        if per[cls] <= PER_CLASS_CAP:
+            kept.append(f)
+    res.failures = kept
     for k, v in sorted(classes.items()):
-        res.notes.append("failure class x%d: %s" % (v, k))
+        res.notes.append("failure class x%d (violated postconditions; %d recorded individually with replay): %s" % (v, min(per[k], PER_CLASS_CAP), k))
+    res.bounds["violations_total"] = int(sum(classes.values()))
     return res
 
 
@@ -519,7 +536,6 @@ if __name__ == "__main__":
         shown[cls] += 1
         if shown[cls] <= 3:
             print("FAILURE", f["contract"], json.dumps(f["case"]), f["tags"], "::", f["detail"][:400])
-    for cls, n in shown.items():
-        if n > 3:
-            print("... %d failures in class %r (first 3 shown)" % (n, cls))
+    for n in res.notes:
+        print("NOTE", n)
     print("wall %.1fs" % (time.time() - t0), file=sys.stderr)
